@@ -158,6 +158,13 @@ def check_checked_registry(ctx, rep):
     fns = [f for f in core.built if f.npath.startswith('crux_core::typegen::') or '::typegen::' in f.npath]
     unchecked = [(f, bb) for f in fns for bb, t in f.calls() if norm(t.get('callee') or '').startswith('serde_reflection::') and 'unchecked' in last_seg(t['callee'])]
     checked = [(f, bb, t) for f in fns for bb, t in f.calls('serde_reflection::trace::Tracer::registry')]
+    # the schema is traced in the mode the bridge's codec uses: bincode is not human readable, so the tracer must not be either (types such
+    # as Uuid or IpAddr serialise differently in the two modes)
+    for f in fns:
+        for bb, t in f.calls('serde_reflection::trace::TracerConfig::is_human_readable'):
+            if len(t['args']) < 2 or t['args'][1].get('v') != 0:
+                rep.bad('R10.f', '%s|human-readable-tracer' % f.kpath, '%s traces types in human-readable mode while the bridge encodes them with bincode '
+                        '(not human readable): types whose serde impls branch on the mode get a schema that does not match the wire' % f.where(bb))
     if not fns:
         rep.missing('R10.f', 'crux_core::typegen functions (feature typegen)')
         return
